@@ -89,6 +89,7 @@ type c05Agg struct {
 	hist     [2][2][3]int64 // [trailing][expected accept][observed accept/reject/panic]
 	unspec   [2]int64
 	disagree int64
+	afterLen int64
 	evals    int64
 	byClass  map[string]int64
 }
@@ -111,6 +112,9 @@ func (a *c05Agg) flush(c *mon.Ctx) {
 	}
 	if a.disagree != 0 {
 		c.Count(c05DisagreeCounter, int(a.disagree))
+	}
+	if a.afterLen != 0 {
+		c.Count("Check() after Len() on the same Document compared with Check() on a fresh one", int(a.afterLen))
 	}
 	c.Eval(int(a.evals))
 	keys := make([]string, 0, len(a.byClass))
@@ -204,6 +208,15 @@ func c05Judge(c *mon.Ctx, a *c05Agg, text []byte, trailing bool, report bool, sh
 	if exp >= 0 {
 		a.hist[t][exp][oi]++
 	}
+	// the verdict of Check does not depend on an earlier Len() on the same Document (all short
+	// texts, one in 32 of the others)
+	if len(text) <= 4 || (len(text) > 0 && (int(text[0])+int(text[len(text)-1])*7+len(text))%32 == 0) {
+		a.afterLen++
+		if v := c05CheckAfterLen(text, trailing); v != obs.Verdict() && report {
+			c.Violate("after-len", c05MkCase(text, trailing), obs.Verdict(), v, "Document.Check after Len() on the same Document differs from Check on a fresh Document")
+			return true
+		}
+	}
 	if (exp == 1 && oi == 0) || (exp == 0 && oi == 1) {
 		return false
 	}
@@ -231,6 +244,13 @@ func c05Judge(c *mon.Ctx, a *c05Agg, text []byte, trailing bool, report bool, sh
 	}
 	c.Violate("verdict", c05MkCase(text, trailing), expS, obs.Verdict(), what+": "+obs.String())
 	return true
+}
+
+// c05CheckAfterLen: Len() and then Check() on one Document object.
+func c05CheckAfterLen(text []byte, trailing bool) string {
+	d := lib.Doc(string(text), trailing)
+	lib.SafeVal(d.Len)
+	return lib.Safe(d.Check).Verdict()
 }
 
 // c05Shrink greedily deletes chunks while the same disagreement persists.
@@ -789,7 +809,17 @@ func init() {
 			}
 			return 900
 		},
-		Replay: map[string]func(json.RawMessage) string{"verdict": c05Replay},
+		Replay: map[string]func(json.RawMessage) string{"verdict": c05Replay, "after-len": func(raw json.RawMessage) string {
+			var cs c05Case
+			if err := json.Unmarshal(raw, &cs); err != nil {
+				return "bad replay: " + err.Error()
+			}
+			text, err := hex.DecodeString(cs.Hex)
+			if err != nil {
+				return "bad replay: " + err.Error()
+			}
+			return c05CheckAfterLen(text, cs.Trailing)
+		}},
 		Final: func(ev *mon.Evidence) error {
 			if n := ev.Counters[c05DisagreeCounter]; n > 0 {
 				return fmt.Errorf("refjson and encoding/json disagree on %d texts (harness bug; see samples of class ORACLE DISAGREEMENT)", n)
